@@ -28,6 +28,9 @@ func OverlayFromPatch(dir string, patch []byte) (map[string][]byte, error) {
 		case strings.HasPrefix(l, "+++ "):
 			flush()
 			name := strings.TrimPrefix(l, "+++ ")
+			if t := strings.IndexByte(name, '\t'); t >= 0 {
+				name = name[:t] // plain diff -u puts a timestamp after a tab
+			}
 			name = strings.TrimPrefix(name, "b/")
 			if name == "/dev/null" {
 				file = ""
